@@ -20,7 +20,7 @@ for line in open("/tmp/confirm-all.log"):
         confirm = line.strip()
 runs = {}
 for c in checks:
-    r = subprocess.run(["./check", c, "quick"], cwd=V, env=dict(os.environ, SMG_REPO=wt), capture_output=True, text=True)
+    r = subprocess.run(["./check", c, e.get("tier", "quick")], cwd=V, env=dict(os.environ, SMG_REPO=wt), capture_output=True, text=True)
     first = next((l for l in r.stdout.splitlines() if l.startswith(("VIOLATION", "INCONCLUSIVE", "HELD"))), "")
     runs[c] = {"exit": r.returncode, "first_line": first[:400]}
 base = subprocess.run(["git", "-C", wt, "rev-parse", "--short", "HEAD"], capture_output=True, text=True).stdout.strip()
@@ -37,5 +37,7 @@ meta = {
 }
 if "note" in e:
     meta["note"] = e["note"]
+if "tier" in e:
+    meta["tier"] = e["tier"]
 json.dump(meta, open(f"{d}/meta.json", "w"), indent=1)
 print(key, {c: v["exit"] for c, v in runs.items()})
